@@ -118,6 +118,8 @@ def oracle(case, obs, ctx, idx):
     bad_clock = S.log_insane(obs)
     if bad_clock:
         return ("clock-not-an-exact-number", bad_clock), facts
+    if obs.get("notes"):
+        return ("simulator-did-not-come-to-rest", "; ".join(obs["notes"]) + f" (snapshots so far: {obs.get('snaps')})"), facts
     base = ctx[idx]
     init = case["cmds"][0]
     start, end = init[1], init[3]
